@@ -586,7 +586,12 @@ def cases_c11(rng, thorough):
         [G.op_scan('add', I(0))], [{'op': 'count', 'reduce': False}],
         [G.op_roll(3, 1, [G.op_agg('sum', True)])], [G.op_roll(2, 2, [G.op_simple('to_list')])],
         [G.op_split('divc', 2, [G.op_simple('to_list')])],
+        # criteria that are equal but never identical objects
+        [G.op_split('divc', 2, [G.op_simple('to_list')], 'bigint')],
+        [G.op_split('divc', 2, [G.op_agg('sum', True)], 'tuple')],
+        [G.op_split('divc', 3, [{'op': 'count', 'reduce': True}], 'float')],
         [G.op_group_by('modc', 2, [G.op_scan('add', I(0))])],
+        [G.op_group_by('modc', 2, [G.op_scan('add', I(0))], 'str')],
         [G.op_tee('zip', [[G.op_scan('add', I(0))], [{'op': 'count', 'reduce': False}]])],
         [G.op_time_split(3, -1, False, True, [G.op_simple('to_list')])],
         [G.op_time_split(-1, -1, True, True, [G.op_simple('to_list')])],
@@ -764,6 +769,16 @@ def cases_c03(rng, thorough):
                                for _ in range(rng.randint(0, 7))])) for idx in rng.sample([0, 2], 2)]
         cases.append(mux_case([op], G.schedule(rng, lts)))
     cases += multi_source_cases(rng, 40 if thorough else 10)
+    # two chained store sections with a store manager each (the state ids of the second
+    # section address the second store)
+    for _ in range(60 if thorough else 16):
+        a = rng.choice([[G.op_roll(3, 3, [])], [G.op_roll(2, 1, [G.op_simple('last')])], [G.op_scan('add', I(0))],
+                        [G.op_group_by('modc', 2, [G.op_simple('last')])], [{'op': 'count', 'reduce': False}]])
+        b = rng.choice([[G.op_roll(2, 2, [])], [G.op_roll(2, 2, [G.op_agg('sum', True)])], [G.op_scan('add', I(0))],
+                        [G.op_split('divc', 2, [G.op_simple('to_list')])], [G.op_simple('lag', n=1)],
+                        [G.op_simple('distinct', f=fn('id'))]])
+        lts = rand_lifetimes(rng, rng.choice([1, 2]), 8, vals=range(5))
+        cases.append(mux_case(a + b, G.schedule(rng, lts), store_split=len(a)))
     # one composite operator object at two places of the pipeline
     n = 12 if thorough else 4
     cases += shared_inner_cases(rng, n, lambda r, inn: G.op_roll(r.randint(1, 3), r.randint(1, 3), inn))
@@ -809,6 +824,9 @@ REUSING = lambda rng: [
     lambda inn: G.op_split('divc', 2, inn), lambda inn: G.op_split('modc', 2, inn),
     lambda inn: G.op_split('noneIf', 1, inn), lambda inn: G.op_group_by('noneIf', 2, inn),
     lambda inn: G.op_group_by('modc', 2, inn),
+    # keys -3..1: -1 and -2 have equal hashes; equal values of different types
+    lambda inn: G.op_group_by('addc', -3, inn), lambda inn: G.op_group_by('modc', 2, inn, 'altfloat'),
+    lambda inn: G.op_split('addc', -3, inn, 'tuple'), lambda inn: G.op_split('divc', 2, inn, 'bigint'),
     lambda inn: G.op_group_by('modc', 2, [G.op_roll(2, 2, inn)]),
     lambda inn: G.op_roll(4, 4, [G.op_group_by('modc', 2, inn)]),
     None,    # top-level key re-creation
